@@ -453,6 +453,12 @@ func c43SectionChain(t *rapid.T, ev *harn.Collector, total uint32, restarts []ui
 	const S = ledgerstore.BloomBitsBlocks
 	bk := fix.Key(fix.KP256, 0)
 	env, done := c43Setup(t, bk)
+	handedOver := false
+	defer func() {
+		if !handedOver {
+			done() // a failing or invalidated case must not leave its ledger directory behind
+		}
+	}()
 	rs := map[uint32]bool{}
 	for _, r := range restarts {
 		rs[r] = true
@@ -478,24 +484,22 @@ func c43SectionChain(t *rapid.T, ev *harn.Collector, total uint32, restarts []ui
 		}
 		hh, _, err := env.addBlock(ptx)
 		if err != nil {
-			done()
 			t.Fatalf("ledger rejected generated block %d: %v", h, err)
 		}
 		if len(ptx) > 0 {
 			evmBlocks++
 			if _, _, err := env.checkBlock(hh); err != nil {
-				done()
-				t.Fatalf("%v", err)
+					t.Fatalf("%v", err)
 			}
 		}
 		if rs[hh] {
 			if err := env.ch.Reopen(); err != nil {
-				done()
-				t.Fatalf("reopen at %d: %v", hh, err)
+					t.Fatalf("reopen at %d: %v", hh, err)
 			}
 			ev.Class("section:restart")
 		}
 	}
+	handedOver = true
 	return env, done, fmt.Sprintf("total=%d restarts=%v evmblocks=%d", total, restarts, evmBlocks)
 }
 
